@@ -195,7 +195,7 @@ var settingKeys = []string{"converter", "variables", "name", "output:raw", "outp
 
 var settingValues = []string{"", " ", "yes", "no", "maybe", "yes yes", ".", "..", "...", "A", "A B", "A B C", "A.B", ".A", "A.", "A..B", "|", "A |", "| F", "A B | F", "A B | ", "A | p:F",
 	"[", "(", "\\", "*", ".*", "^$", "(?P<x>", "@error", "@panic", "@ignore", "@bogus", "@", "regex", "regex [ x", "regex (.*) $1", "regex (.*) $9", "unknownT x",
-	"F", "p:F", ":F", "p:", ":", "./x.go", "../x.go", "/x.go", "@cwd/x.go", "@cwd/", "@cwd", "x", "x:y", ":y", "x:", "x:y:z", "struct", "function", "assign-variable", "Function",
+	"F", "p:F", ":F", "p:", ":", "./x.go", "../x.go", "@cwd/x.go", "@cwd/", "@cwd", "x", "x:y", ":y", "x:", "x:y:z", "struct", "function", "assign-variable", "Function",
 	"\t", "\tyes", "yes\t", "  yes  ", "ÿ", "\x01", "a\x00b", "Source", "Target", "Name", "Nested.Name", "Ptr.Name", "source", "target", "nil", "_", "func", "type",
 	"vcase/none:F", "strconv:Itoa", "fmt:Sprint", "strconv:.*", ".*", "Conv.*", "github.com/x/y:Z", "-1", "0", "9Name", "Name-1", "Name Name"}
 
@@ -214,7 +214,7 @@ var keyValues = map[string][]string{
 	"enum:exclude":      {"p:SKind", ":SKind", "SKind", ".*:.*", "(:x", "p:(", "", "vcase/f:.*"},
 	"update":            {"source", "target", "nope", "", "source target"},
 	"context":           {"source", "c", "nope", "", "a b"},
-	"output:file":       {"./x.go", "../x.go", "/x.go", "@cwd/x.go", "@cwd/", "@cwd", "x", "", "a b", "./generated", "./", "."},
+	"output:file":       {"./x.go", "../x.go", "@cwd/x.go", "@cwd/", "@cwd", "x", "", "a b", "./generated", "./", "."},
 	"output:package":    {"x", "x:y", ":y", "x:", "x:y:z", "", "vcase/other", "vcase/other:9x", ":func", "a b"},
 	"output:raw":        {"func X() {}", "func (", "}", "var x = ", "import \"os\"", "// c", ""},
 	"name":              {"X", "9x", "func", "", "A B", "Ünï", "a-b"},
